@@ -3128,6 +3128,7 @@ impl Reference
 		{
 			// The autoderef has failed, but we want to be careful about when
 			// we issue an error, because we might currently be in a dry run.
+			let mut slice_of_pointer = None;
 			let pd = current_type.pointer_depth();
 			if self.address_depth as usize >= 2 + pd
 			{
@@ -3146,12 +3147,14 @@ impl Reference
 					deref_type: Box::new(current_type),
 				};
 			}
-			else if current_type.is_slice_pointer()
+			else if let ValueType::SlicePointer { element_type } = &current_type
 			{
-				panic!(
-					"This currently has no solution because \
-					 fully_dereferenced makes no sense here."
-				);
+				// What a slice pointer points to is the slice itself, which
+				// has the same representation.
+				take_address = false;
+				slice_of_pointer = Some(ValueType::Slice {
+					element_type: element_type.clone(),
+				});
 			}
 			else
 			{
@@ -3171,7 +3174,7 @@ impl Reference
 			}
 			// The autoderef has failed but only because it does not match the
 			// target type. To keep this repeatable, finish the autoderef.
-			coerced_type = None;
+			coerced_type = slice_of_pointer;
 		}
 
 		let address_depth = if take_address { 1 } else { 0 };
